@@ -359,7 +359,7 @@ fn from_json(v: &Value) -> Option<C9Case> {
 fn run(ctx: &Ctx) {
     let mem = RefCell::new(Mem9::new());
     ctx.shrink_iters.set(1500);
-    let cases = ctx.share(ctx.tier.pick(6_400, 160_000));
+    let cases = ctx.share(ctx.tier.pick(25_600, 512_000));
     ctx.search("contexts", "c9", cases, case(), |c, want_case| {
         let v = check(&mem.borrow(), c);
         if !want_case {
